@@ -493,6 +493,11 @@ class StandardBaseContext(Context,
                 key = args, tuple(kwargs.items())
             else:
                 key = args
+            # (arguments of different types can compare equal: 3 and
+            # mpf(3), 0 and 0j; the value computed for one is not that for
+            # the other)
+            key = key, tuple(type(v) for v in args), \
+                tuple(type(v) for v in kwargs.values())
             prec = ctx.prec
             if key in f_cache:
                 cprec, cvalue = f_cache[key]
